@@ -12,7 +12,7 @@
    (C12_warp_elapse is the warp clause for the other segments, those starting on beat 0 included; C12_half_tick the
    bound in beats). *)
 From Coq Require Import List ZArith QArith Qabs Bool Sorting.Sorted.
-From SV Require Import Sx Beat Engine Proofs.EngineFacts Proofs.Hittable Proofs.TimeLaw Proofs.BeatAt Proofs.WarpElapse Proofs.RoundTripEvent Proofs.BeatMono Proofs.OwnTime.
+From SV Require Import Sx Beat Engine Proofs.EngineFacts Proofs.Hittable Proofs.TimeLaw Proofs.BeatAt Proofs.WarpElapse Proofs.RoundTripEvent Proofs.BeatMono Proofs.OwnTime Proofs.InPause.
 Import ListNotations.
 Open Scope Q_scope.
 
@@ -48,6 +48,25 @@ Theorem C12_tick_aligned : forall pre s post d t q (kb : Z),
   exists k : Z, fst (beat_at_raw (pre ++ s :: post) d t q) == inject_Z k / 48.
 Proof. exact beat_at_tick_aligned. Qed.
 Print Assumptions C12_tick_aligned.
+
+(* ... and on real timing data: every stop and delay (its END event e, tag STOP_END or DELAY_END, on beat b) spans the
+   times time_at assigns to b under the pause's own tag (e_tag e - 1) and under its END tag - they differ by exactly the
+   pause's length - and strictly between them beat_at answers b, whatever the tag, the warps and the other events *)
+Theorem C12_pause_span : forall td b0 v0 rest, dom td -> td_bpms td = (b0, v0) :: rest ->
+  forall P e R, events td = P ++ e :: R -> is_end_tag (e_tag e) = true ->
+  time_at (sts td v0) (init_state td v0) (e_beat e) (e_tag e) ==
+  time_at (sts td v0) (init_state td v0) (e_beat e) (e_tag e - 1) + e_val e.
+Proof. exact pause_span. Qed.
+Print Assumptions C12_pause_span.
+
+Theorem C12_in_pause_td : forall td b0 v0 rest, dom td -> td_bpms td = (b0, v0) :: rest -> b0 == 0 ->
+  forall P R e, events td = P ++ e :: R -> is_end_tag (e_tag e) = true ->
+  forall t q,
+  time_at (sts td v0) (init_state td v0) (e_beat e) (e_tag e - 1) < t ->
+  t < time_at (sts td v0) (init_state td v0) (e_beat e) (e_tag e) ->
+  fst (beat_at_raw (sts td v0) (init_state td v0) t q) = e_beat e.
+Proof. exact in_pause_td. Qed.
+Print Assumptions C12_in_pause_td.
 
 (* a time that coincides with state times: the answer is the beat of the last state at that time whose tag
    does not exceed the asked tag (so the WARP tag stops at the warp start and the default goes on to the furthest
